@@ -9,7 +9,9 @@ import core  # noqa: E402
 from coqlit import cQ, clist  # noqa: E402
 
 ID = "C15"
-THEOREMS = ["c15_horner", "c15_commute", "c15_no_calibration_identity", "c15_pointwise"]
+THEOREMS = ["c15_horner", "c15_commute", "c15_no_calibration_identity", "c15_pointwise", "c15_origin_is_shift",
+            "c15_constant_and_linear", "c15_trailing_zero", "c15_trailing_zero_needs_coeff", "c15_additive",
+            "c15_length_and_trigger"]
 HEADER = ("From Coq Require Import ZArith List QArith.\nFrom NixV Require Import Base.Prelude Pure.Slices Pure.SlicesCheck "
           "Pure.Array Pure.ArrayCheck.\nImport ListNotations.\n")
 DTYPES = ["int8", "int16", "int32", "int64", "uint8", "uint16", "uint32", "float32", "float64"]
